@@ -381,6 +381,49 @@ func (cl *cluster) apply(ev string) {
 		cl.observe("Kill -> %s", cl.taskDesc())
 	case "DelSnap":
 		cl.deleteSnapshot(ev, f[1], before)
+	case "Cleaners":
+		// every attached replica runs its background snapshot cleaner
+		for _, b := range before.Backends {
+			cl.startCleaner(nodeOf(b.Address))
+		}
+	case "Tick", "TickF":
+		i := atoi(f[1])
+		cl.nTicks++
+		if f[0] == "TickF" {
+			cl.nFaults++
+		}
+		rn := cl.nodes[i].(*RealNode)
+		imgs := map[string]string{}
+		var chainBefore []string
+		if rep := rn.srv.Replica(); rep != nil {
+			chainBefore, _ = rep.Chain()
+			for name, d := range rep.ListDisks() {
+				if d.UserCreated && !d.Removed {
+					imgs[name], _ = rn.SnapshotImage(name)
+				}
+			}
+		}
+		dataBefore := rn.View().Data
+		cl.tick(i, f[0] == "TickF")
+		var chainAfter []string
+		if rep := rn.srv.Replica(); rep != nil {
+			chainAfter, _ = rep.Chain()
+		}
+		cl.observe("%s -> chain %d -> %d", ev, len(chainBefore), len(chainAfter))
+		if cl.wants("c11") {
+			cl.cnt["cleaner_ticks"]++
+			if len(chainAfter) < len(chainBefore) {
+				cl.cnt["cleaner_deletions"]++
+			}
+			if d := rn.View().Data; d != dataBefore {
+				cl.violate("cleaner-changed-data", "cleaner-changed-live-data", fmt.Sprintf("%s: the background cleaner changed what node %d's live volume reads (chain %v -> %v): %s", ev, i, chainBefore, chainAfter, blockDiff(dataBefore, d)))
+			}
+			for name, img := range imgs {
+				if now, ok := rn.SnapshotImage(name); !ok || now != img {
+					cl.violate("cleaner-changed-data", "cleaner-changed-user-snapshot", fmt.Sprintf("%s: retained user snapshot %s on node %d changed or vanished (chain %v -> %v)", ev, name, i, chainBefore, chainAfter))
+				}
+			}
+		}
 	case "Resize":
 		mask := atoi(f[2])
 		for _, n := range maskNodes(mask, cl.cfg.N) {
